@@ -20,10 +20,14 @@ OWN_PID = os.getpid()      # the interpreter that imported psutil (workers are f
 
 
 def mk_cfg(ctx, variant="main"):
-    acts = pm.ACTIONS if ctx.thorough else pm.ACTIONS[:6]
+    acts = pm.ACTIONS if ctx.thorough else pm.ACTIONS[:7]
     if variant == "main":
         return pm.Cfg(seed=ctx.seed, slots=("A", "B") if ctx.thorough else ("A",), max_objs=2, actions=acts, clock=False,
                       queries=("name", "ppid"), numeric=False, use_iter=True, max_denies=1, oneshot=True)
+    if variant == "iterfault":
+        # objects handed out by process_iter() (held by the caller), one-shot resource failure of the identity probe
+        return pm.Cfg(seed=ctx.seed, slots=("A",), max_objs=2, actions=acts[:3], clock=False, queries=("name",), numeric=False,
+                      use_iter=True, iterhold=True, max_faults=1)
     if variant == "popen":
         # the held objects are psutil.Popen instances whose child was reaped behind their back (returncode None)
         return pm.Cfg(seed=ctx.seed, slots=("A",), max_objs=2, actions=acts[:4], clock=False, queries=("name",), numeric=False,
@@ -90,7 +94,7 @@ def run(ctx):
     global _CFG
     extra = {}
     extra_viols = []
-    for variant, d in (("popen", 7 if ctx.thorough else 6), ("ownpid", 7 if ctx.thorough else 6)):
+    for variant, d in (("popen", 7 if ctx.thorough else 6), ("ownpid", 7 if ctx.thorough else 6), ("iterfault", 8 if ctx.thorough else 7)):
         _CFG = mk_cfg(ctx, variant)
         ctx.close()
         r = bfs(run_h, d, ctx)
